@@ -43,6 +43,9 @@ def run(ctx):
             ctx.cov["states"] += r["distinct"]
             ctx.cov["transitions"] += r["generated"]
             ctx.run_replay("replay-sql", ["-in", path, "-seed", seed, "-sched", sched], "replay-sql-" + sel, sigkeys=("kind", "dsn"))
+            if sel == "groups":
+                # group-by columns that are themselves called count / COUNT / counts
+                ctx.run_replay("replay-sql", ["-in", path, "-seed", seed, "-dict", "countnames"], "replay-sql-columns-named-count", sigkeys=("kind", "dsn"))
             if sel == "count":
                 # literals that differ only in the white space inside them
                 ctx.run_replay("replay-sql", ["-in", path, "-seed", seed, "-dict", "ws"], "replay-sql-whitespace-values", sigkeys=("kind", "dsn"))
